@@ -14,7 +14,13 @@
     `push` / `swap` made through any other, also from inside a `for` over it
     (`for` re-reads the length on every iteration: `list.get(idx)` until `None`);
   * `swap(i, j)` does nothing when either index is out of bounds;
-  * `match` takes the first arm whose pattern matches and whose guard holds.
+  * `match` takes the first arm whose pattern matches and whose guard holds;
+  * a constructor (record literal — its initialisers in the order WRITTEN —, anonymous record,
+    enum constructor, list literal, the arguments of a call, the operands of `==`) evaluates its
+    components left to right, and each component HOLDS the value its expression had at that
+    point: a later component (a block `{ x = …; e }`) that assigns to a variable, or to a field
+    of it, that an earlier component read does not change the earlier component (`.seq`,
+    `.recdO`, `.first`; the total core of this reading and its theorems: `Model/ValueCtor`).
 
   Executable only (the theorems of C02 are about the layout / memory model);
   `partial` is therefore fine here.  Core Lean only.
@@ -34,6 +40,7 @@ inductive Val where
   | list (h : Nat)
   deriving Inhabited
 
+mutual
 inductive Expr where
   | lit (i : Int)
   | str (s : String)
@@ -61,9 +68,22 @@ inductive Expr where
   /-- `stale_k(l)`: a NEW one-element list `[l.get(l.len())]`, i.e. `[None]`, built by a helper
       whose `l.get(i)` result variable held `Some(l[i])` on the iterations before -/
   | staleNone (l : Expr)
-  deriving Inhabited
-
-mutual
+  /-- `{ s₁; …; e }`: a block expression whose statements write to variables of the ENCLOSING
+      scope (assignment to a variable / a field path, compound assignment, `push`), then its value.
+      Inside a constructor this is where evaluation order shows: the components written before the
+      block hold what their expressions were worth BEFORE the block ran -/
+  | seq (ss : Array Stmt) (e : Expr)
+  /-- record literal whose initialisers are written — and therefore evaluated — in another order
+      than the declaration: `fs[i]` (source order) is stored at position `idx[i]` -/
+  | recdO (idx : Array Nat) (fs : Array Expr)
+  /-- `first_k(a, b)` (`fn first_k(x: T, y: U) -> T { x }`, or the host function of that shape):
+      both arguments are evaluated, left to right, then the callee returns its first -/
+  | first (a b : Expr)
+  /-- integer arithmetic of a compound assignment, wrapping at the width of the type:
+      `op` 0 = `+`, 1 = `-`, 2 = `*` -/
+  | arith (op : Nat) (signed : Bool) (bits : Nat) (a b : Expr)
+  /-- string concatenation `a + b` -/
+  | sconcat (a b : Expr)
 inductive Arm where
   | mk (tag : Int) (binds : Array Nat) (guard : Option Expr) (body : Array Stmt)
 inductive Stmt where
@@ -79,6 +99,7 @@ inductive Stmt where
   | nop
 end
 
+instance : Inhabited Expr := ⟨.unit⟩
 instance : Inhabited Stmt := ⟨.emit .unit⟩
 instance : Inhabited Arm := ⟨.mk 0 #[] none #[]⟩
 
@@ -144,6 +165,13 @@ partial def update (v : Val) (path : List Nat) (nv : Val) : Val :=
     | .recd fs => .recd (fs.set! k (update fs[k]! rest nv))
     | other => other
 
+/-- wrap an integer to the range of an integer type -/
+def wrapInt (signed : Bool) (bits : Nat) (i : Int) : Int :=
+  let m : Int := (2 : Int) ^ bits
+  let r := i % m
+  if signed && r ≥ m / 2 then r - m else r
+
+mutual
 partial def eval : Expr → M Val
   | .lit i => pure (.int i)
   | .str s => pure (.str s)
@@ -239,8 +267,40 @@ partial def eval : Expr → M Val
       set { s with heap := s.heap.push #[.enm 1 #[]] }
       pure (.list s.heap.size)
     | _ => do stuck "stale on a non-list"; pure .unit
-
-mutual
+  | .seq ss e => do
+    execBlock ss
+    eval e
+  | .recdO idx fs => do
+    -- evaluated in the order written, stored where declared
+    let mut out := Array.replicate fs.size Val.unit
+    for i in [0:fs.size] do
+      let v ← eval fs[i]!
+      let k := idx[i]!
+      if k < out.size then out := out.set! k v else stuck "record position"
+    pure (.recd out)
+  | .first a b => do
+    let x ← eval a
+    let _ ← eval b
+    pure x
+  | .arith op signed bits a b => do
+    match ← eval a with
+    | .int x =>
+      match ← eval b with
+      | .int y =>
+        let r := match op with
+          | 0 => x + y
+          | 1 => x - y
+          | _ => x * y
+        pure (.int (wrapInt signed bits r))
+      | _ => do stuck "arithmetic on a non-int"; pure .unit
+    | _ => do stuck "arithmetic on a non-int"; pure .unit
+  | .sconcat a b => do
+    match ← eval a with
+    | .str x =>
+      match ← eval b with
+      | .str y => pure (.str (x ++ y))
+      | _ => do stuck "+ on a non-string"; pure .unit
+    | _ => do stuck "+ on a non-string"; pure .unit
 partial def exec : Stmt → M Unit
   | .let_ v e => do setVar v (← eval e)
   | .set v path e => do
@@ -348,6 +408,7 @@ def times {α} (n : Nat) (p : P α) : P (Array α) := do
     out := out.push (← p)
   pure out
 
+mutual
 partial def pExpr : P Expr := do
   match ← tok with
   | "L" => pure (.lit (← int))
@@ -415,9 +476,30 @@ partial def pExpr : P Expr := do
     let p ← times n nat
     let x ← pExpr
     pure (.block p x (← pExpr))
+  | "SQ" => do
+    let ss ← pBlock
+    pure (.seq ss (← pExpr))
+  | "RO" => do
+    let n ← nat
+    let mut idx := #[]
+    let mut fs := #[]
+    for _ in [0:n] do
+      idx := idx.push (← nat)
+      fs := fs.push (← pExpr)
+    pure (.recdO idx fs)
+  | "P1" => do
+    let a ← pExpr
+    pure (.first a (← pExpr))
+  | "AR" => do
+    let op ← nat
+    let sg ← nat
+    let bits ← nat
+    let a ← pExpr
+    pure (.arith op (sg == 1) bits a (← pExpr))
+  | "SC" => do
+    let a ← pExpr
+    pure (.sconcat a (← pExpr))
   | _ => failure
-
-mutual
 partial def pBlock : P (Array Stmt) := do
   let n ← nat
   times n pStmt
